@@ -241,6 +241,9 @@ class Fxp():
 
         # store the value
         self.set_val(val, raw=raw)
+        if dtype is not None and complex_flag and self.vdtype != complex:
+            # a format declared complex by its dtype string holds complex values: a real value has a zero imaginary part
+            self.set_val(np.asarray(self.val).astype(complex), raw=True, vdtype=complex)
 
     # ---
     # Properties/Attributes
